@@ -109,6 +109,7 @@ func cmdCheck(args []string) int {
 	}
 	sort.Strings(keys)
 	ctxs := map[string]*FnCtx{}
+	var unclaimed []string
 	var coverCtx []*FnCtx
 	for _, k := range keys {
 		spec := e.Specs.Funcs[k]
@@ -129,6 +130,10 @@ func cmdCheck(args []string) int {
 		nK1, nK2 := 0, 0
 		for _, o := range c.obls {
 			take := false
+			if excepted(spec, o) {
+				unclaimed = append(unclaimed, o.Name)
+				continue
+			}
 			if k1Kinds[o.Kind] {
 				take = hasProp(spec.NoPanic, P)
 			} else if o.Kind == "precondition" || o.Kind == "closure-precondition" {
@@ -271,6 +276,7 @@ func cmdCheck(args []string) int {
 		"obligations_generated":      total,
 		"known_finding_obligations":  len(kfHit),
 		"inactive_clauses":           len(e.Specs.Inactive),
+		"unclaimed_safety_obligations": unclaimed,
 		"checker_cmd":               fmt.Sprintf("/verif/bin/govc check --property %s --tier %s  (VC generator over go/ssa of /repo working tree, -tags verif; solvers z3-new 5.1.0, z3 4.8.12, cvc5 1.0 raced)", P, *tier),
 		"trusted_base":              trustedBase(e, keys),
 		"functions_under_contract":  fnsUnder,
@@ -413,3 +419,14 @@ func truncate(s string, n int) string {
 }
 
 var _ = ssa.NewProgram
+
+// excepted: the obligation is listed in the function's `nopanic ... except` list (kind#ordinal)
+func excepted(spec *FuncSpec, o *Obligation) bool {
+	rest := strings.TrimPrefix(o.Name, o.Func+"/")
+	for _, ex := range spec.Except {
+		if rest == ex || strings.HasPrefix(rest, ex+"[") {
+			return true
+		}
+	}
+	return false
+}
